@@ -335,78 +335,7 @@ def run(ctx):
 
     # ------------------------------------------------------------------ R3
     ctx.rule("R3", "four-index integrals are stored in physicists' notation", "two-electron integrals land on transposed index positions")
-    s4 = prog.func("iodata.utils.set_four_index_element")
-    nsite = 0
-    for f in prog.package_funcs():
-        if f is s4:
-            continue
-        for cs in f.calls:
-            if s4 not in cs.callees:
-                continue
-            nsite += 1
-            args = cs.node.args
-            if len(args) != 6:
-                ctx.violate("R3", "set_four_index_element is not called with (array, i, j, k, l, value)", f, cs.node)
-                continue
-            fields = []
-            okk = True
-            pmf = prog.parents(f)
-
-            def block_def(name, before):
-                """Last `name = expr` preceding `before` in the same or an enclosing statement list."""
-                cur = before
-                while id(cur) in pmf:
-                    par = pmf[id(cur)]
-                    for fld in ("body", "orelse", "finalbody"):
-                        blk = getattr(par, fld, None)
-                        if isinstance(blk, list) and any(cur is x for x in blk):
-                            best = None
-                            for st2 in blk:
-                                if st2 is cur:
-                                    break
-                                if isinstance(st2, ast.Assign) and any(isinstance(t2, ast.Name) and t2.id == name for t2 in st2.targets):
-                                    best = st2.value
-                            if best is not None:
-                                return best
-                    cur = par
-                return None
-
-            stc = cs.node
-            while not isinstance(stc, ast.stmt):
-                stc = pmf[id(stc)]
-            for a in args[1:5]:
-                d = deref(f, a)
-                if isinstance(d, ast.Name):
-                    bd = block_def(d.id, stc)
-                    if bd is not None:
-                        d = bd
-                # int(FIELD) - 1
-                if isinstance(d, ast.BinOp) and isinstance(d.op, ast.Sub) and isinstance(d.right, ast.Constant) and d.right.value == 1 and isinstance(d.left, ast.Call) and getattr(d.left.func, "id", "") == "int":
-                    fields.append(d.left.args[0])
-                else:
-                    okk = False
-                    ctx.violate("R3", f"index argument `{src_of(a)}` of set_four_index_element is `{src_of(d)}`, not `int(<file field>) - 1`", f, cs.node)
-            if not okk:
-                continue
-            # order of the file fields: by slice start or by words[k] index
-            def pos(e):
-                if isinstance(e, ast.Subscript):
-                    s_ = e.slice
-                    if isinstance(s_, ast.Slice) and isinstance(s_.lower, ast.Constant):
-                        return s_.lower.value
-                    if isinstance(s_, ast.Constant) and isinstance(s_.value, int):
-                        return s_.value
-                return None
-            ps = [pos(e) for e in fields]
-            if None in ps or len(set(ps)) != 4:
-                ctx.violate("R3", "cannot order the four index fields of the file record", f, cs.node)
-                continue
-            rank = [sorted(ps).index(p) for p in ps]  # file-field number (0-based) passed at each position
-            if rank == [0, 2, 1, 3]:
-                ctx.ok("R3", f"{f.module.short}: file fields (1,2,3,4) -> set_four_index_element(.., f1, f3, f2, f4, ..)", f"{f.module.relpath}:{cs.node.lineno}")
-            else:
-                ctx.violate("R3", f"file fields are passed in order {[r + 1 for r in rank]}; chemists' (ij|kl) to physicists' <ik|jl> needs (1, 3, 2, 4)", f, cs.node)
-    ctx.floor("R3", nsite, 2, "set_four_index_element call sites")
+    check_four_index_readers(ctx, "R3")
 
     # ------------------------------------------------------------------ R4
     ctx.rule("R4", "triangular and block-wise storage is unpacked to the right elements", "matrix elements land on wrong positions, or a trailing block swallows the next section")
@@ -1486,3 +1415,62 @@ def check_vasp_header(ctx, rid):
                     ctx.violate(rid, f"VASP header ({label}): {bad}", f, f.node, construct=f"vasp header: {bad}"[:160])
                     return
     ctx.ok(rid, f"chgcar._load_vasp_header: {ncase} model headers (scaling 1 / 2, with / without selective dynamics, Direct / Cartesian / Kartesian spellings) give the scaled cell, the expanded elements and the right Cartesian positions", f"{f.module.relpath}:{f.lineno}")
+
+
+def check_four_index_readers(ctx, rid):
+    """Two-electron integrals listed in chemists' notation (ij|kl) are stored in physicists' notation <ik|jl>, zero-based.
+    The record loops of the two readers that call `set_four_index_element` (FCIDUMP, Gaussian log) are interpreted
+    on model records whose four indices all differ: the value must land on the eight symmetry-equivalent positions of
+    (i-1, k-1, j-1, l-1) and nowhere else; one-electron and core records (FCIDUMP) on their own slots."""
+    from ..accessors import AccessorEval, Raised, Rec
+    from ..symarr import NotSymbolic
+
+    prog = ctx.prog
+    s4 = prog.func("iodata.utils.set_four_index_element")
+    licls = prog.cls("iodata.utils.LineIterator")
+    orbit = lambda i, j, k, l: {(i, j, k, l), (j, i, l, k), (k, l, i, j), (l, k, j, i), (k, j, i, l), (i, l, k, j), (l, i, j, k), (j, k, l, i)}
+    sites = [(f, cs) for f in prog.package_funcs() if f is not s4 for cs in f.calls if s4 in cs.callees]
+    done = 0
+    n = 4
+    for f, cs in sites:
+        loop = next((st for st in f.body if isinstance(st, ast.For) and any(x is cs.node for x in ast.walk(st))), None)
+        if loop is None:
+            raise AnalysisError(f"{f.qualname}: the record loop around set_four_index_element was not found")
+        arr = cs.node.args[0].id if cs.node.args and isinstance(cs.node.args[0], ast.Name) else None
+        itn = loop.iter.id if isinstance(loop.iter, ast.Name) else None
+        if arr is None or itn is None:
+            raise AnalysisError(f"{f.qualname}: the array / iterator of the record loop cannot be identified")
+        if f.module.short == "fcidump":
+            lines = ["  5.0000000000000000E-01    1    2    3    4\n", "  2.5000000000000000E-01    2    1    0    0\n", "  1.5000000000000000E+00    0    0    0    0\n"]
+            local = {itn: None, arr: np.zeros((n,) * 4), "one_mo": np.zeros((n, n)), "core_energy": 0.0, "nbasis": n}
+        else:
+            # Gaussian prints ` I=%3d J=%3d K=%3d L=%3d Int=%20.12E` with a D exponent
+            lines = [" I=  1 J=  2 K=  3 L=  4 Int=  0.500000000000D+00\n", " Leave Link  316\n"]
+            local = {itn: None, arr: np.zeros((n,) * 4), "nbasis": n}
+        lit = Rec(licls, filename="F", fh=iter(lines), lineno=0, stack=[])
+        local[itn] = lit
+        ev = AccessorEval(prog, licls, limit=40000)
+        ev.module = f.module
+        try:
+            ev._block([loop], local)
+        except Raised as exc:
+            ctx.violate(rid, f"{f.qualname}: the record loop raises {exc.args[0]} on a well-formed (ij|kl) record", f, loop, construct=f"{f.module.short} four-index record: raises")
+            continue
+        except NotSymbolic as exc:
+            raise AnalysisError(f"{f.qualname}: the record loop is outside the evaluation whitelist: {exc}") from exc
+        two = np.asarray(local[arr], dtype=float)
+        got = {tuple(int(v) for v in idx) for idx in np.argwhere(two != 0.0)}
+        want = orbit(0, 2, 1, 3)
+        done += 1
+        if got != want or any(abs(two[idx] - 0.5) > 1e-12 for idx in got):
+            first = sorted(got)[0] if got else None
+            ctx.violate(rid, f"{f.module.short}: the record (ij|kl) = (1 2|3 4) with value 0.5 is stored at {sorted(got)[:4]}{'...' if len(got) > 4 else ''}; chemists' (ij|kl) is physicists' <ik|jl>, zero-based: (0, 2, 1, 3) and its seven symmetry partners", f, cs.node, construct=f"{f.module.short} four-index record: stored at {first}")
+            continue
+        if f.module.short == "fcidump":
+            one = np.asarray(local["one_mo"], dtype=float)
+            pos1 = {tuple(int(v) for v in idx) for idx in np.argwhere(one != 0.0)}
+            if pos1 != {(1, 0), (0, 1)} or abs(one[1, 0] - 0.25) > 1e-12 or abs(float(local["core_energy"]) - 1.5) > 1e-12:
+                ctx.violate(rid, f"fcidump: the one-electron record `0.25 2 1 0 0` is stored at {sorted(pos1)} and the core record `1.5 0 0 0 0` as {local['core_energy']!r}; expected the symmetric pair (1, 0), (0, 1) and core_energy = 1.5", f, loop, construct="fcidump one-electron / core record")
+                continue
+        ctx.ok(rid, f"{f.module.short}: a record (1 2|3 4) lands on (0, 2, 1, 3) and its seven symmetry partners only" + ("; one-electron and core records on their own slots" if f.module.short == "fcidump" else ""), f"{f.module.relpath}:{cs.node.lineno}")
+    ctx.floor(rid, len(sites), 2, "set_four_index_element call sites")
